@@ -48,13 +48,14 @@ Blocks0 == { E("p", <<x>>) : x \in {tTwo, tLong} }
 (* ---- regular tables (Scope "tq" / "tt"): every cell is filled with copies of its own letter ---- *)
 TScope == Scope \in {"tq", "tt"}
 NCols == IF Scope = "tq" THEN {2} ELSE {2, 3}
-Classes == IF Scope = "tq" THEN {"e", "s", "m"} ELSE {"e", "s", "m", "w"}
+Classes == IF Scope = "tq" THEN {"e", "s", "m"} ELSE {"e", "o", "m", "w"}      \* "o": one character (shorter than a span)
 Tilings(n) == IF n = 2 THEN {<<1, 1>>, <<2>>} ELSE {<<1, 1, 1>>, <<2, 1>>, <<1, 2>>, <<3>>}
 Letter(r, c) == 96 + (r - 1) * 3 + c                     \* row r, first grid column c -> a..f
 CellText(r, c, cl) ==
   LET L == <<Letter(r, c), 1>> IN
   CASE cl = "e" -> <<>>
     [] cl = "s" -> <<L, L>>
+    [] cl = "o" -> <<L>>
     [] cl = "m" -> <<L, L, <<32, 1>>, L>>
     [] cl = "w" -> <<<<19968, 2>>, L>>
     [] OTHER -> <<L, L, L, L, L, L, L>>
